@@ -261,7 +261,6 @@ def ob_reboot_detected(vc):
     """a detected reboot of a source withdraws everything learnt from it, and only that"""
     w = DWorld(vc, track=("B_S", "X_Sx"))
     before = w.snapshot()
-    vc.arm_cut(SD.TimedStore.stop_all_for_address, 0)
     o = vc.outcome(vc.body(SD.ServiceDiscover.reboot_detected), w.disc, w.A)
     _mass_withdrawal(vc, w, o, "reboot_detected", w.A)
     vc.check(not w.present(w.A, w.S) and not w.present(w.A, w.Sx), "reboot_detected.source_forgotten")
